@@ -90,7 +90,17 @@ func dev(names []string) {
 			fmt.Println(fi.FullName(), ": no contract")
 			continue
 		}
-		r := prog.VerifyFunc(fi)
+		r := prog.VerifyFuncRebinding(fi, func(obs []*vc.Obligation) bool {
+			for _, sr := range vc.SolveAll(obs, dir, 20, 8) {
+				if sr.Ob.MustFail || sr.Ob.Kind == "aux" || sr.Ob.ThoroughOnly {
+					continue
+				}
+				if sr.Status != "unsat" {
+					return false
+				}
+			}
+			return true
+		})
 		fmt.Printf("== %s (ints %s, safety %v): %d obligations\n", r.Func, r.IntMode, r.Safety, len(r.Obligations))
 		for _, u := range r.Unsupported {
 			fmt.Println("   UNSUPPORTED:", u)
